@@ -1718,3 +1718,39 @@ def rule_loadmisc(text):
             apps.append(_app(rname, text, mm.start(), mm.end(), new, why))
             text = text[:mm.start()] + new + text[mm.end():]
     return text, apps
+
+
+def rule_openmisc(text):
+    """device-open one-offs (persistence.rs)"""
+    apps = []
+    ws = r"\s*"
+    # the whole cfg / OpenOptions block of open_device
+    a = text.find("#[cfg(target_os = \"linux\")]\n            use std::os::unix::fs::OpenOptionsExt;")
+    b = text.find("// Get file size")
+    if a >= 0 and b > a:
+        new = "let (file, use_direct_io) = open_device_file(path)?;\n\n            "
+        apps.append(_app("R-open", text, a, b, new, "shim: the platform-dependent OpenOptions block = open read-write, create, never truncate, O_DIRECT if accepted"))
+        text = text[:a] + new + text[b:]
+    table = [
+        (r"let" + ws + r"metadata" + ws + r"=" + ws + r"file\.metadata\(\)\.map_err\(FeoxError::IoError\)\?;" + ws + r"self\.device_size" + ws + r"=" + ws + r"metadata\.len\(\);", "self.device_size = file.len_of()?;", "R-fs", "shim: the file's length from its metadata"),
+        (r"file\.metadata\(\)\.map_err\(FeoxError::IoError\)\?\.len\(\)", "file.len_of()?", "R-fs", "shim: the file's length from its metadata"),
+        (r"file\.set_len\((\w+)\)\.map_err\(FeoxError::IoError\)\?;", r"file.set_len_mapped(\1)?;", "R-fs", "shim: File::set_len with its error mapped"),
+        (r"let" + ws + r"mut" + ws + r"metadata" + ws + r"=" + ws + r"self\._metadata\.write\(\);" + ws + r"metadata\.device_size" + ws + r"=" + ws + r"self\.device_size;" + ws + r"metadata\.update\(\);",
+         "self._metadata.set_device_size_and_update(self.device_size);", "R-lock", "shim: recording the device size in the metadata block under its write lock"),
+        (r"#\[cfg\(not\(unix\)\)\]" + ws + r"let" + ws + r"use_direct_io" + ws + r"=" + ws + r"false;", "", "R-cfg", "not compiled on this platform"),
+        (r"!(\w+)\.is_multiple_of\(([^()]*(?:\([^()]*\))?[^()]*)\)", r"(\1 % (\2) != 0)", "R-arith", "definition of u64::is_multiple_of for a non-zero divisor"),
+        (r"(\w+)\.unwrap_or\((\w+)\)", r"(match \1 { Some(v_) => v_, None => \2 })", "R-ounwrapor", "definition of Option::unwrap_or"),
+    ]
+    for pat, rep, rname, why in table:
+        n = 0
+        while n < 8:
+            n += 1
+            mm = re.search(pat, text)
+            if not mm:
+                break
+            new = mm.expand(rep)
+            if new == text[mm.start():mm.end()]:
+                break
+            apps.append(_app(rname, text, mm.start(), mm.end(), new, why))
+            text = text[:mm.start()] + new + text[mm.end():]
+    return text, apps
